@@ -88,6 +88,38 @@ impl Listener<(), Option<usize>> for Recorder {
     }
 }
 
+/// A listener that panics in every callback; registered BEFORE the recorder in a third of the cases:
+/// the recorder must still hear about every change exactly once.
+#[derive(Debug, Default)]
+struct Grumpy;
+
+impl Listener<(), Option<usize>> for Grumpy {
+    fn on_state_changed(&self, _: &CoroutineLocal, _: St, _: St) {
+        panic!("grumpy listener: on_state_changed");
+    }
+    fn on_ready(&self, _: &CoroutineLocal, _: St) {
+        panic!("grumpy listener: on_ready");
+    }
+    fn on_running(&self, _: &CoroutineLocal, _: St) {
+        panic!("grumpy listener: on_running");
+    }
+    fn on_suspend(&self, _: &CoroutineLocal, _: St) {
+        panic!("grumpy listener: on_suspend");
+    }
+    fn on_syscall(&self, _: &CoroutineLocal, _: St) {
+        panic!("grumpy listener: on_syscall");
+    }
+    fn on_cancel(&self, _: &CoroutineLocal, _: St) {
+        panic!("grumpy listener: on_cancel");
+    }
+    fn on_complete(&self, _: &CoroutineLocal, _: St, _: Option<usize>) {
+        panic!("grumpy listener: on_complete");
+    }
+    fn on_error(&self, _: &CoroutineLocal, _: St, _: &str) {
+        panic!("grumpy listener: on_error");
+    }
+}
+
 #[derive(Clone, Copy, Debug, PartialEq)]
 enum Step {
     Suspend,
@@ -233,6 +265,7 @@ fn c07_case(seed: u64, case: u64) -> (Verdict, String, String, bool, String, J, 
     let mut rng = Rng::for_case(seed ^ 0xC07, case);
     let body = gen_body(&mut rng);
     let via_scheduler = case % 5 == 4;
+    let grumpy_first = case % 3 == 1;
     let steps_done = Arc::new(AtomicU64::new(0));
     let rec = Recorder::default();
     let evs = rec.evs.clone();
@@ -289,7 +322,7 @@ fn c07_case(seed: u64, case: u64) -> (Verdict, String, String, bool, String, J, 
         }
         None
     };
-    let desc = jobj! {"body" => body.iter().map(step_str).collect::<Vec<_>>().join(" "), "driver" => if via_scheduler {"Scheduler"} else {"resume()"}};
+    let desc = jobj! {"body" => body.iter().map(step_str).collect::<Vec<_>>().join(" "), "driver" => if via_scheduler {"Scheduler"} else {"resume()"}, "a_listener_that_panics_in_every_callback_is_registered_first" => grumpy_first};
     let mut auto = AutoCheck { last_new: CoroutineState::Ready, consumed: 0, terminal_seen: false, fingerprint: vec![] };
     let mut viol: Option<(String, String)> = None;
     let mut early_tried = 0;
@@ -297,6 +330,9 @@ fn c07_case(seed: u64, case: u64) -> (Verdict, String, String, bool, String, J, 
     let mut resumes = 0;
     if via_scheduler {
         let mut sch = Scheduler::new(format!("c07-{seed}-{case}"), 128 * 1024);
+        if grumpy_first {
+            sch.add_listener(Grumpy);
+        }
         sch.add_listener(rec.clone());
         let id = sch.submit_co(f, None, None).expect("submit");
         let deadline = std::time::Instant::now() + Duration::from_secs(5);
@@ -333,6 +369,9 @@ fn c07_case(seed: u64, case: u64) -> (Verdict, String, String, bool, String, J, 
         std::mem::forget(sch);
     } else {
         let mut co: SchedulableCoroutine = Coroutine::new(Some(format!("c07-{seed}-{case}")), f, None, None).expect("new");
+        if grumpy_first {
+            co.add_listener(Grumpy);
+        }
         co.add_listener(rec.clone());
         let mut stuck_in_syscall_after_panic = false;
         for _round in 0..64 {
